@@ -70,7 +70,7 @@ func genByz(seed uint64, tier string, honestOnlySometimes bool) ByzCfg {
 	s.Deploy.SignSP.Bcast = r.Range(1, 2)
 	s.Deploy.PickFixed = append([]uint16(nil), ids...)
 	s.Strategy = pickStr(r, netsim.Strategies)
-	s.Serial = r.Bool(0.7)
+	s.Serial = true
 	s.Op = pickStr(r, []string{"keygen", "sign"})
 	s.Signers = ids
 	s.CallTimeoutMs = 15000 + r.Intn(2000)
